@@ -6,6 +6,7 @@ import A2Verif.Lemmas.FsFatPutStep
 import A2Verif.Lemmas.FsFatRetype
 import A2Verif.Lemmas.FsFatSubDir
 import A2Verif.Lemmas.FsFatMkdirStep
+import A2Verif.Lemmas.FsFatSubPutStep
 import A2Verif.Props.C01
 import A2Verif.Props.C04
 import A2Verif.Props.C19
@@ -40,9 +41,17 @@ import A2Verif.Props.C05
 every chunk `0 ..< end` present, no chunk longer than `chunk_len`, length ≤ `end · chunk_len`, and at each excluded point the
 real code misbehaved: clusters leaked by a refused put; silent truncation; an entry whose size exceeds its chain).
 
-**Partial** (statement in the docstring of `step_refines_partial`): `mkdir`, operations below the root, and `delete` /
-`rename` / `lock` / `unlock` of a directory are not proved; their byte-exact agreement with the real code is checked on every
-sampled step by the tie, and the real steps are checked against the same specification by the group's reader tie.
+**Directories** (first level): `mkdir_step` (`create` of a root-level directory; the new directory is well formed,
+`SubDirOk`), `delete_sub_step` (`delete("D/X")`), `put_sub_step` (`put` of any file image under `D/X`, **including the growth
+of `D` into a further cluster**, applied repeatedly: second, third, … cluster), each preserving `Inv` and `SubDirOk` and being
+a step the specification allows; `subdir_writeback_exact`: `writeback_directory_entry` writes the 32 bytes of entry `idx`
+into cluster `idx / entries-per-cluster` of the chain at its own offset and nothing else, for every index.
+
+**Partial** (statement in the docstring of `step_refines_partial`): histories that mix root-level and first-level operations
+(the step theorems compose — `exPuts_ok` is such a composition — but `history_refines` is stated for the root-level
+operations), `rename` / `lock` / `unlock` / `retype` below the root, deeper levels, and `delete` / `rename` / `lock` / `unlock`
+of a directory are not proved; their byte-exact agreement with the real code is checked on every sampled step by the tie,
+and the real steps are checked against the same specification by the group's reader tie.
 -/
 namespace A2Verif.FsFat
 open A2Verif A2Verif.Fs.Fat A2Verif.Read.FatT
@@ -383,10 +392,12 @@ on a volume whose reading lists no directory); the general root-level statement 
 The full statement, which is *not* proved, reads: for every operation `op` of the concrete model (`put`, `delete`,
 `rename`, `lock`, `unlock`, `retype`, `mkdir`, any path) and every state `d` with `Inv d`,
 `runFlush op d = (res, d') → Inv d' ∧ stepOk fatParams (volOf d) (abs op) (okB res) (volOf d')`.  Proved: all six file
-operations on root-level paths (`fop_step`), and `format` (`format_establishes_inv`).  Missing: `mkdir`; the walk below the
-root (`goto_path` through sub-directories, `writeback_directory_entry` along a cluster chain, `expand_directory`); `delete` /
-`rename` / `lock` / `unlock` whose target is a directory (the reader reports no protection flag for a directory, and the
-specification's `rename` is for files).  For these the correspondence rests on the sampled ties alone. -/
+operations on root-level paths (`fop_step`), `format` (`format_establishes_inv`), `mkdir` of a root-level directory
+(`mkdir_step`), and `delete` and `put` in a first-level directory — `goto_path` through it, `writeback_directory_entry` along
+its cluster chain, `expand_directory` — (`delete_sub_step`, `put_sub_step`).  Missing: `rename` / `lock` / `unlock` / `retype`
+below the root; `mkdir` below the root and every deeper level; `delete` / `rename` / `lock` / `unlock` whose target is a
+directory (the reader reports no protection flag for a directory, and the specification's `rename` is for files).  For these
+the correspondence rests on the sampled ties alone. -/
 theorem step_refines_partial {d : Disk} (inv : Inv d) (fl : Flat d) (op : Op) (a : RootArg op.path) :
     Inv (op.run d).2 ∧ stepOk fatParams (volOf d) op.abs (op.run d).1 (volOf (op.run d).2) = true :=
   ⟨(op_step inv fl op a).1, (op_step inv fl op a).2.2⟩
@@ -903,6 +914,49 @@ theorem delete_sub_step {d d' : Disk} {D X : Bytes} {res : R Unit} (inv : Inv d)
     rw [hvol, ← hp]
     exact stepOk_delete_removed hv hwf hnd hfree hl
 
+/-- **`put` of a file into a first-level directory refines, including the growth of the directory** (C01 content, C02 frame,
+C03, C04, C05): for a state satisfying the invariant in which `D` is a well-formed first-level directory (`SubDirOk`), names
+`D`, `X` in any case (`SubArg`), a two-byte clock and **any** file image with the path `D/X`: `put` followed by the flush
+preserves the invariant, keeps `D` a well-formed directory — along its old chain, or along the chain extended by one cluster
+when `D` had no free slot — and is a step the specification allows:
+* refused without any change (every refusal of `put_step`; `X` in use in `D`; `D` full and no free cluster for it);
+* refused after `D` grew (no cluster left for the data): the record of `D` owns one more, previously free, zeroed cluster and
+  nothing else differs — the specification lets a refused step grow a directory;
+* accepted: exactly one new record `D/X`, a file owning previously free clusters, whose chunks begin with the stored chunks and
+  whose length is the file image's, its entry written **in the slot's own cluster of `D`** (`subdir_writeback_exact`: the
+  first slot of the new cluster when `D` grew); every other record — in the root, in `D`, elsewhere — is read as before, the
+  record of `D` with its possibly extended list of clusters.
+Applied again to the state it yields, it covers the growth into the third and every further cluster. -/
+theorem put_sub_step {d d' : Disk} {D X : Bytes} {fi : FImg} {now : Stamp} {res : R Nat} (inv : Inv d) (a : SubArg D X)
+    {f : Array Nat} {E1 E2 : List Bytes} {eD : Bytes} {cl : List Nat} (sd : SubDirOk d D f E1 eD E2 cl)
+    (hpath : fi.fullPath = subPath D X) (hs : StampOk now) (h : runFlush (put fi now) d = (res, d')) :
+    Inv d' ∧ (∃ f' cl', SubDirOk d' D f' E1 eD E2 cl' ∧ (cl' = cl ∨ ∃ nc, cl' = cl ++ [nc])) ∧
+      stepOk fatParams (volOf d) (.put (absPath D ++ 47 :: absPath X) (chunksOf fi) (le32 fi.eof 0) 0 0) (okB res) (volOf d') = true := by
+  have hwf := (inv_reads_well_formed inv).2.1
+  rcases put_sub_step_core inv a sd hpath hs h with ⟨er, h1, h2⟩ | ⟨vg, clg, f', via, inv', sd', hres⟩
+  · subst h1 h2
+    exact ⟨inv, ⟨f, cl, sd, Or.inl rfl⟩, stepOk_refused_same hwf _⟩
+  rcases via with ⟨e1, e2⟩ | ⟨nc, F1, F2, free', hclg, hfv, hnc, hnd, hfr, evg⟩
+  · subst e1 e2
+    refine ⟨inv', ⟨f', _, sd', Or.inl rfl⟩, ?_⟩
+    rcases hres with ⟨er, h1, hvol, hne⟩ | ⟨n, G1, G2, rec, free'', h1, hv, hp, hd, hgn, hgf, hnd, hfree, hpn, hc, hcm, he, hvol⟩
+    · exact absurd rfl hne
+    · subst h1
+      rw [hvol, ← hp]
+      exact stepOk_put_inserted hv hwf hgn hgf hnd hfree hpn hc hd hcm he (fun h => by cases h) (fun h => by cases h)
+  · refine ⟨inv', ⟨f', _, sd', Or.inr ⟨nc, hclg⟩⟩, ?_⟩
+    have hdir : (dirRecOf eD cl).isDir = true := rfl
+    rcases hres with ⟨er, h1, hvol, hne⟩ | ⟨n, G1, G2, rec, free'', h1, hv, hp, hd, hgn, hgf, hnd', hfree, hpn, hc, hcm, he, hvol⟩
+    · subst h1
+      rw [hvol, evg]
+      exact stepOk_refused_grown hfv hwf hdir hnc hnd hfr _
+    · subst h1
+      rw [hvol, ← hp]
+      subst evg
+      exact stepOk_put_via (sameFiles_grown hfv hwf hdir) (by rw [grown_paths, ← hfv]; rfl)
+        (fun x hx => ((hfr x).mp hx).1) hv (wfB_grown hfv hwf hnc hnd hfr) hgn hgf hnd' hfree hpn hc hd hcm he
+        (fun h => by cases h) (fun h => by cases h)
+
 /-- non-vacuity: `mkdir D` on the formatted example volume is accepted (one kernel evaluation of the run), so `mkdir_step`
 yields a state with `Inv` in which `D` is a well-formed first-level directory — the hypotheses of `delete_sub_step` for
 `D/A.B` -/
@@ -917,6 +971,52 @@ theorem exDiskD_ok : Inv exDiskD ∧ ∃ f' E1 e' E2 nc, SubDirOk exDiskD exD f'
   exact ⟨h.1, h.2.2 hacc⟩
 
 example : SubArg exD exName := { aD := exD_arg, aX := exName_arg, len := by decide, keyX := by decide +kernel }
+
+/-! ### `put` into the directory until it grows into a second and a third cluster -/
+
+/-- an empty file `D/F<k>` (two letters `A`…`P` encode `k < 256`) -/
+def exSub (k : Nat) : FImg := { exFile with fullPath := [68, 47, 70, 65 + k / 16, 65 + k % 16], chunks := [], eof := [0, 0, 0, 0] }
+
+/-- `put` of `exSub k` for every `k` of the list, each observed as the harness observes it -/
+def putsFrom (d : Disk) : List Nat → Disk
+  | [] => d
+  | k :: ks => putsFrom (runFlush (put (exSub k) exStamp) d).2 ks
+
+theorem exSub_arg : ∀ k, k < 31 → SubArg exD [70, 65 + k / 16, 65 + k % 16] := by
+  have h : ∀ k, k < 31 → 47 ∉ [70, 65 + k / 16, 65 + k % 16] ∧ 42 ∉ [70, 65 + k / 16, 65 + k % 16] ∧
+      63 ∉ [70, 65 + k / 16, 65 + k % 16] ∧ (keyOf [70, 65 + k / 16, 65 + k % 16]).head? ≠ some 46 := by decide +kernel
+  intro k hk
+  obtain ⟨h1, h2, h3, h4⟩ := h k hk
+  exact { aD := exD_arg, aX := { ne := by simp, noSlash := h1, noStar := h2, noQ := h3, len := by simp },
+          len := by simp [exD], keyX := h4 }
+
+/-- the hypotheses of `put_sub_step` are satisfiable, and it applies again to the state it yields: after any sequence of these
+`put`s on the example volume with the directory `D` the invariant holds and `D` is a well-formed directory (no evaluation) -/
+theorem exPuts_ok : ∀ (ks : List Nat) (d : Disk), (∀ k ∈ ks, k < 31) → Inv d → (∃ f E1 eD E2 cl, SubDirOk d exD f E1 eD E2 cl) →
+    Inv (putsFrom d ks) ∧ ∃ f E1 eD E2 cl, SubDirOk (putsFrom d ks) exD f E1 eD E2 cl := by
+  intro ks
+  induction ks with
+  | nil => intro d _ inv sd; exact ⟨inv, sd⟩
+  | cons k ks ih =>
+    intro d hk inv sd
+    obtain ⟨f, E1, eD, E2, cl, sd⟩ := sd
+    obtain ⟨inv', ⟨f', cl', sd', _⟩, _⟩ := put_sub_step inv (exSub_arg k (hk k (by simp))) sd (fi := exSub k) rfl exStamp_ok
+      (prod_eta (runFlush (put (exSub k) exStamp) d))
+    exact ih _ (fun k' hk' => hk k' (by simp [hk'])) inv' ⟨f', E1, eD, E2, cl', sd'⟩
+
+example : Inv (putsFrom exDiskD (List.range 31)) :=
+  (exPuts_ok _ _ (by simp) exDiskD_ok.1 (by obtain ⟨f, E1, e, E2, nc, sd⟩ := exDiskD_ok.2; exact ⟨f, E1, e, E2, [nc], sd⟩)).1
+
+/-- growth into the second cluster (kernel evaluation): `D` holds `.`, `..` and 14 free slots in its one cluster; after 15
+`put`s of empty files the reading lists `D` and the 15 files, and `D` owns clusters 2 and 3; 18 of 20 clusters are free -/
+example : (fun v : Vol => (v.files.length, (v.lookup [68]).map (·.owned), v.free)) (volOf (putsFrom exDiskD (List.range 15))) =
+    (16, some [2, 3], 18) := by
+  decide +kernel
+
+/-- growth into the third cluster (kernel evaluation of the runs only): after 31 `put`s of empty files `stat()` reports 17 of
+the 20 clusters free — the three others are those of `D` (by `exPuts_ok` the image is read as a well-formed, leak-free volume) -/
+example : (match (statFree (putsFrom exDiskD (List.range 31))).1 with | .ok n => n | .error _ => 0) = 17 := by
+  decide +kernel
 
 /-! ## a file image with a hole is refused before anything is written (fix 7da7b06) -/
 
